@@ -165,11 +165,18 @@ static void run_inject(uint64_t idx, pv_rng* rng) {
     pv_mlang* KO = pv_lang_by_name("Korean");
     unsigned coin = pv_gen_coin(rng);
     /* create */
-    pv_wrap_time_scripted = 1; pv_wrap_time_value = (time_t)(PV_EPOCH + 77 * PV_STEP + 5); pv_w->time_value = PV_EPOCH + 77 * PV_STEP + 5;
+    /* whichever clock the last table selects (the injected one or libc's), the birthday is that clock's: both are scripted with the
+     * same value, now and then one beyond 2^32 seconds or outside the range */
+    uint64_t tclk = PV_EPOCH + 77 * PV_STEP + 5;
+    { static const uint64_t ODD[] = { (1ull << 32) + 5, (1ull << 32) + PV_EPOCH, PV_EPOCH + 1023 * PV_STEP + 9, 1ull << 33, 253402300799ull, PV_EPOCH - 1, 0 }; if (idx % 3 == 1) tclk = ODD[(idx / 3) % (sizeof ODD / sizeof *ODD)]; else if (idx % 3 == 2) tclk = PV_EPOCH + pv_rand64(rng) % (1024 * PV_STEP); }
+    pv_wrap_time_scripted = 1; pv_wrap_time_value = (time_t)tclk; pv_w->time_value = tclk;
     wraps_begin(); polyseed_data* s = NULL; int st = pv_api_create(pv_randn(rng, 8), &s); PV_COUNT("evaluations", 1);
     pv_wrap_time_scripted = 0;
     if (st != POLYSEED_OK) { pv_violation("C18/create-failed", "%s after %s", pv_status_name(st), hist); goto out; }
     ok &= routed(t, "polyseed_create", true, false, true);
+    { int saved_nev = pv_w->nev; (void)saved_nev; uint64_t Bc = polyseed_get_birthday(s);          /* raw call: the event log of create is still needed below */
+      if (Bc != pv_m_birthday_time(pv_m_birthday_of(tclk))) { ok = false; pv_violation(t->time ? "C18/birthday-not-from-injected-clock" : "C18/birthday-not-from-libc-clock", "table %s: the selected clock said %llu, birthday %llu", hist, (unsigned long long)tclk, (unsigned long long)Bc); }
+      else PV_COUNT(t->time ? "inject.birthday_from_injected_clock" : "inject.birthday_from_libc_clock", 1); }
     for (unsigned i = 0; i < sizeof ENTROPY_WRAPS / sizeof *ENTROPY_WRAPS; ++i) if (wraps_delta(ENTROPY_WRAPS[i])) { ok = false; char key[96]; snprintf(key, sizeof key, "C18/other-source-consulted/%s", pv_wrap_name(ENTROPY_WRAPS[i])); pv_violation(key, "create (table %s) called libc %s()", hist, pv_wrap_name(ENTROPY_WRAPS[i])); }
     if (pv_ev_count(PV_EV_RAND) < 1 || pv_ev_count(PV_EV_MEMZERO) < 1) { ok = false; pv_violation("C18/injected-entry-not-used/randbytes-or-memzero", "create: %d randbytes, %d memzero events", pv_ev_count(PV_EV_RAND), pv_ev_count(PV_EV_MEMZERO)); }
     /* encode (Korean: NFC is needed) */
